@@ -13,6 +13,7 @@ from .common import h, KNOWN, Check, run_pool, REPLAY_DIR
 from .c03 import ListChooser
 from .model import Module, val_to_json, val_from_json
 
+HANG_IS_VERDICT = True     # "terminates" is part of this property
 PID = "C04"
 RULE = ("G1: valid encodings (reference DER/BER variants/UPER/OER, library XER) of generated values, mutated by a "
         "Hypothesis-drawn list of structure-aware edits (truncate, bit flip, byte set, insert/delete, BER length-field "
